@@ -1,9 +1,73 @@
+import ScenicModel.Model.PegTotal
+import ScenicModel.Model.FrontState
+import ScenicModel.Gen.PegGrammarC10
+import ScenicModel.Gen.FrontStateC10
 import Driver.Util
-/-! line protocol for the C10 model (stub: replaced when the property's model is built) -/
+/-! line protocol for the C10 models; grammar and veneer data are the ones regenerated from /repo
+
+  front <g:0|1|-> o<ov><m2> tok…        state machine; tok = w<i> | p | f | I | T<ov><m2><caught> | c
+                                        first word: override of `sfsGuarded` (`-` = as extracted)
+        -> act=<int> stack=<n> m2=<0|1> dirty=<i,i,…|-> trace=<a:s;…|->
+  peg <tok>…                            recogniser, tok = dot-separated ids of the terminals matching the token (`-` none)
+        -> pass1=<ok e|fail e|raise|hang> parse=<ok e|raise|hang>
+  pegfuel <n>                           -> the fuel bound used for n tokens -/
 namespace Driver.C10
-open Driver
+open Driver Scenic.PegTotal Scenic.FrontState Scenic.Gen
+
+def bit (c : Char) : Bool := c == '1'
+
+def parseTok (w : String) : Option Tok :=
+  match w.toList with
+  | ['p'] => some .probe
+  | ['f'] => some .fail
+  | ['I'] => some .openImp
+  | ['c'] => some .close
+  | ['T', a, b, c] => some (.openTop ⟨bit a, bit b⟩ (bit c))
+  | 'w' :: rest => (String.ofList rest).toNat?.map Tok.write
+  | _ => none
+
+def showList (l : List String) (sep : String) : String := if l.isEmpty then "-" else sep.intercalate l
+
+def runFront (gw : String) (ow : String) (toks : List String) : String :=
+  match ow.toList, toks.mapM parseTok with
+  | ['o', a, b], some ts =>
+    let d : Data := match gw with
+      | "0" => { frontData with sfsGuarded := false }
+      | "1" => { frontData with sfsGuarded := true }
+      | _ => frontData
+    let m := runTop d ⟨bit a, bit b⟩ ts
+    let dirty := (List.range d.nGlobals).filter (fun g => m.st.dirty.contains g)
+    s!"act={m.st.activity} stack={m.st.stack} m2={if m.st.mode2D then 1 else 0} " ++
+    s!"dirty={showList (dirty.map toString) ","} trace={showList (m.trace.reverse.map (fun p => s!"{p.1}:{p.2}")) ";"}"
+  | _, _ => "bad-op"
+
+def parseToken (w : String) : Option (List Nat) :=
+  if w == "-" then some [] else (w.splitOn ".").mapM String.toNat?
+
+def showRes : Res → String
+  | .ok e => s!"ok {e}"
+  | .fail e => s!"fail {e}"
+  | .raise => "raise"
+  | .hang => "hang"
+
+def runPeg (toks : List String) : String :=
+  match toks.mapM parseToken with
+  | none => "bad-op"
+  | some ts =>
+    let arr := ts.toArray
+    let E : Env Unit := ⟨arr.size, fun t p => (arr.getD p []).contains t,
+      fun _ a _ _ => (if pegNoneActions.contains a then .none else .ok, ())⟩
+    let fuel := fuelBound pegGrammar arr.size
+    let p1 := (interp E pegGrammar fuel pegStart 0 false ⟨{}, ()⟩).1
+    let full := parse E pegGrammar fuel pegStart ()
+    s!"pass1={showRes p1} parse={showRes full}"
 
 def handle : List String → String
+  | "front" :: g :: o :: toks => runFront g o toks
+  | "peg" :: toks => runPeg toks
+  | ["pegfuel", n] => match n.toNat? with
+    | some n => toString (fuelBound pegGrammar n)
+    | none => "bad-op"
   | _ => "bad-op"
 
 end Driver.C10
